@@ -1126,6 +1126,35 @@ impl<S: Sut> World<S> {
     }
 
     // ------------------------------------------------------------------ merge laws (C02) and hybrid (C03)
+
+    /// Two states that are claimed to be "the same" (two evaluation orders of a merge, merge vs op path)
+    /// must also *stay* the same: feed both the remaining ops of the history (causally ready ones, in
+    /// issue order) and compare reads after each. Catches hidden-state differences (witness clocks,
+    /// pending removes) that only later change what a read returns.
+    fn followup(&mut self, x: &S, y: &S, k: Bits) -> Option<String> {
+        let mut x = x.clone();
+        let mut y = y.clone();
+        let mut kc = k;
+        let mut applied = vec![];
+        for i in 0..self.ops.len() {
+            if kc >> i & 1 == 1 || self.deps[i] & !kc != 0 {
+                continue;
+            }
+            x.apply_op(self.ops[i].clone());
+            y.apply_op(self.ops[i].clone());
+            kc |= 1 << i;
+            applied.push(i);
+            self.st.ev("law_followup");
+            let (ox, oy) = (x.observe(), y.observe());
+            if ox.reads != oy.reads {
+                return Some(format!("after additionally applying ops {applied:?} to both: reads {} vs {}", ox.reads.show(), oy.reads.show()));
+            }
+            if applied.len() >= 8 {
+                break;
+            }
+        }
+        None
+    }
     fn law(&mut self, kind: u8, i: usize, j: usize, k3: usize, step: usize) -> Result<bool, Viol> {
         if self.pool.is_empty() || !S::HAS_MERGE {
             return Ok(false);
@@ -1152,6 +1181,9 @@ impl<S: Sut> World<S> {
                 if ob(&ab).reads != ob(&ba).reads {
                     return Err(self.v("comm", ka | kb, format!("a+b reads {}\n   b+a reads {}\n   a={}\n   b={}", ob(&ab).reads.show(), ob(&ba).reads.show(), dump(&a).show(), dump(&b).show())));
                 }
+                if let Some(d) = self.followup(&ab, &ba, ka | kb) {
+                    return Err(self.v("comm", ka | kb, format!("a+b and b+a read the same now but diverge later: {d}\n   a={}\n   b={}", dump(&a).show(), dump(&b).show())));
+                }
             }
             1 => {
                 self.st.ev("law_assoc");
@@ -1167,6 +1199,9 @@ impl<S: Sut> World<S> {
                 a_bc.merge_from(bc);
                 if ob(&ab_c).reads != ob(&a_bc).reads {
                     return Err(self.v("assoc", ka | kb | kc, format!("(a+b)+c reads {}\n   a+(b+c) reads {}\n   a={}\n   b={}\n   c={}", ob(&ab_c).reads.show(), ob(&a_bc).reads.show(), dump(&a).show(), dump(&b).show(), dump(&c).show())));
+                }
+                if let Some(d) = self.followup(&ab_c, &a_bc, ka | kb | kc) {
+                    return Err(self.v("assoc", ka | kb | kc, format!("(a+b)+c and a+(b+c) read the same now but diverge later: {d}\n   a={}\n   b={}\n   c={}", dump(&a).show(), dump(&b).show(), dump(&c).show())));
                 }
             }
             2 => {
@@ -1205,6 +1240,9 @@ impl<S: Sut> World<S> {
                     }
                     if ob(&f).reads != o.reads {
                         return Err(self.v("hybrid", ku, format!("merge(state(Ka),state(Kb)) reads {}\n   delivering Ka|Kb as ops reads {}\n   a={}\n   b={}", o.reads.show(), ob(&f).reads.show(), dump(&a).show(), dump(&b).show())));
+                    }
+                    if let Some(d) = self.followup(&ab, &f, ku) {
+                        return Err(self.v("hybrid", ku, format!("merge(state(Ka),state(Kb)) and the op path for Ka|Kb read the same now but diverge later: {d}\n   a={}\n   b={}", dump(&a).show(), dump(&b).show())));
                     }
                 }
             }
